@@ -172,6 +172,7 @@ def run_c12(prop, tier, replay):
     print("replayed %d histories (%d calls) on real Badger through db / public RPC / admin service in %.1fs" % (len(scenarios), sum(calls.values()), wall))
     # 4. TLC decides conformance of every recorded call
     rejs, r = fs.validate_parallel(work, lines, "c12", plan["parts"] if not replay else 1)
+    st_rej = fs.selftest(work, lines) if not replay else None
     print("trace validation: %d states, %.1fs, %d rejected call(s)" % (r["distinct"], r["wall_s"], len(rejs)))
     for f in futs:
         cfg, m = f.result()
@@ -217,6 +218,7 @@ def run_c12(prop, tier, replay):
                 "sequences the addressed stream holds, how many are missing, and whether the store also holds VAAs of a target chain whose "
                 "decimal rendering extends / is a prefix of the queried one, of another emitter, or of the requested sequences elsewhere",
         "mc_configs": mc_info, "negative_config": neg, "trace_spec_states": r["distinct"],
+        "trace_spec_negative_selftest_rejections": st_rej,
         "calls": dict(calls), "situations_exercised": dict(guard),
         "scenario_sources": dict(Counter(sc.get("src") for sc in scenarios)),
         "rejected_calls": len(rejs), "rejection_signatures": dict(sigs),
@@ -250,6 +252,7 @@ def run_c16(prop, tier, replay):
         print("%d kill cycles on %d Badger director%s: %d acknowledged stores, %d lookups after reopen, %.1fs" % (
             stats["cycles"], plan["dirs"], "y" if plan["dirs"] == 1 else "ies", stats["stores_acked"], stats["lookups"], wall))
     rejs, r = fs.validate_parallel(work, lines, "c16", plan["dirs"] if not replay else 1)
+    st_rej = fs.selftest(work, lines) if not replay else None
     print("trace validation: %d states, %.1fs, %d rejected line(s)" % (r["distinct"], r["wall_s"], len(rejs)))
     for f in futs:
         cfg, m = f.result()
@@ -296,6 +299,7 @@ def run_c16(prop, tier, replay):
                 "Store.tla; one trace = the whole history of one Badger directory; distinct = distinct (kill mode, store already opened?, "
                 "number of acknowledged stores in the cycle by decade) classes of kill points",
         "mc_configs": mc_info, "trace_spec_states": r["distinct"], "kill_cycles": len(kills),
+        "trace_spec_negative_selftest_rejections": st_rej,
         "harness_statistics": stats, "rejected_lines": len(rejs), "rejection_signatures": dict(sigs),
         "known_findings_matched": getattr(verdict, "n_known", 0),
         "exhaustive": False,
